@@ -99,9 +99,19 @@ func sortKeys[K comparable](keys []K) {
 			return
 		}
 	}
-	slices.SortFunc(keys, func(a, b K) int {
-		return cmp.Compare(fmt.Sprintf("%#v", a), fmt.Sprintf("%#v", b))
-	})
+	// generic fallback: decorate with a printed form once, then sort
+	type dk struct {
+		s string
+		k K
+	}
+	ds := make([]dk, len(keys))
+	for i, k := range keys {
+		ds[i] = dk{fmt.Sprintf("%#v", k), k}
+	}
+	slices.SortFunc(ds, func(a, b dk) int { return cmp.Compare(a.s, b.s) })
+	for i := range ds {
+		keys[i] = ds[i].k
+	}
 }
 
 // StableIDer is implemented by simulated objects (e.g. simnet conns) used as map keys.
